@@ -263,17 +263,18 @@ fn twin_c18_c19() -> R {
     sizes.extend([20496 - 1, 20496, 20497, 30744, 30745, 30800]);
     // "random larger n": beyond four hex digits of buffer length, around further multiples of the chunk size
     sizes.extend((65530..=65560).chain(70000..=70010).chain([102480, 102489, 1 << 20, (1 << 20) + 77, 16 * 10248 + 9]));
-    for &o in &sizes {
+    for (idx, &o) in sizes.iter().enumerate() {
         let req = Request::post("http://a.test/x").body(()).unwrap();
         let mut flow = to_send_body(req)?;
         let m = flow.calculate_max_input(o);
         if m > o {
             return Err(format!("max_input({}) = {} > n", o, m));
         }
-        if o <= top && m < prev_max {
+        // monotone along the ascending sweep 0..=top (the extra sizes appended afterwards are not in order)
+        if idx <= top && m < prev_max {
             return Err(format!("max_input not monotone at {}", o));
         }
-        if o <= top {
+        if idx <= top {
             prev_max = m;
         }
         // the advertised maximum fits
